@@ -96,7 +96,13 @@ def _history_univariate(spec, ctx):
     where = {'kind': 'univariate', 'model': ms['cls'], 'kwargs': ms.get('kwargs', {}), 'history': kinds}
     G = int(rng.integers(1 << 30))
 
-    def fitted(history):
+    # a fit that draws nothing (no KDE resample, no selection sub-sample) does not depend on the global generator:
+    # the second fresh fit then runs under another global state
+    kw = ms.get('kwargs', {})
+    draws = bool(kw.get('sample_size')) or (kw.get('selection_sample_size') not in (None, 'n') and kw['selection_sample_size'] < len(X)) \
+        or any(isinstance(c, dict) and c.get('kwargs', {}).get('sample_size') for c in kw.get('candidates', []) or [])
+
+    def fitted(history, g=G):
         m = uni.build(ms, X)
         for hk in history:
             np.random.seed(1)
@@ -106,10 +112,10 @@ def _history_univariate(spec, ctx):
                 fpr.univariate(m, D, with_samples=True)      # the model is USED between the fits
             except Exception:      # noqa: BLE001 - a refused earlier fit is part of the history
                 pass
-        np.random.seed(G)
+        np.random.seed(g)
         m.fit(X.copy())
         return m
-    ok, ms_ = ctx.call(lambda: (fitted(kinds), fitted([]), fitted([])))
+    ok, ms_ = ctx.call(lambda: (fitted(kinds), fitted([]), fitted([], G if draws else G + 12345)))
     if not ok:
         if spec['k'] == 0 or True:
             # does a fresh fit work at all?  if not, the class refuses this data: nothing to compare
